@@ -772,3 +772,101 @@ T("C10-t-farenough-alias", "C10", FIL, '''            child_seeds = candidates[d
             for sibling in child_siblings:
                 remaining = [ind for ind in remaining if self._is_far_enough(ind, sibling.centroid)]
             candidates[deme].individuals = remaining''', "renamed alias")
+
+# ----------------------------------------------------------------------------- C14
+M("C14-no-py-seed", "C14", TREE, "            random.seed(self._random_seed)\n", "", ["R14.3"], "Python's global stream not seeded (NaN tie-breaks)")
+M("C14-seed-after-root", "C14", TREE, '''            random.seed(self._random_seed)
+            np.random.seed(self._random_seed)
+        else:
+            self._random_seed = None
+
+        self._levels: list[list[AbstractDeme]] = [[] for _ in range(nlevels)]
+        root_deme = init_from_config(
+            config=config.levels[0],
+            new_id="root",
+            target_level=0,
+            metaepoch_count=0,
+            sprout_seed=None,
+            logger=self._logger,
+            random_seed=self._random_seed,
+            config_class_to_deme_class=self.config.config_class_to_deme_class,
+        )
+''', '''        else:
+            self._random_seed = None
+
+        self._levels: list[list[AbstractDeme]] = [[] for _ in range(nlevels)]
+        root_deme = init_from_config(
+            config=config.levels[0],
+            new_id="root",
+            target_level=0,
+            metaepoch_count=0,
+            sprout_seed=None,
+            logger=self._logger,
+            random_seed=self._random_seed,
+            config_class_to_deme_class=self.config.config_class_to_deme_class,
+        )
+        if self._random_seed is not None:
+            random.seed(self._random_seed)
+            np.random.seed(self._random_seed)
+''', ["R14.3"], "global streams seeded after the root population was drawn")
+M("C14-sobol-unseeded", "C14", SOB, "self.sampler = Sobol(d=len(config.bounds), scramble=True, seed=deme_init_args.random_seed)", "self.sampler = Sobol(d=len(config.bounds), scramble=True)", ["R14.2"], "Sobol scrambling unseeded")
+M("C14-lhs-clock", "C14", LHS, "self.sampler = LatinHypercube(d=len(config.bounds), seed=deme_init_args.random_seed)", "self.sampler = LatinHypercube(d=len(config.bounds), seed=(deme_init_args.random_seed or 0) + id(self) % 7)", ["R14.2", "R14.5"], "LHS seed mixed with object identity")
+M("C14-cma-no-seed", "C14", CMA, "            opts[\"seed\"] = deme_init_args.random_seed + self._started_at\n", "", ["R14.2"], "CMA-ES never receives a seed")
+M("C14-cma-no-randn", "C14", CMA, "            opts[\"randn\"] = np.random.randn\n", "", ["R14.2"], "CMA-ES samples from its own stream")
+M("C14-cma-third-ctor", "C14", CMA, "            self._cma_es = CMAEvolutionStrategy(x0, sigma0, inopts=opts)\n        elif config.sigma0:", "            self._cma_es = CMAEvolutionStrategy(x0, sigma0, inopts={\"bounds\": [lb, ub], \"verbose\": -9, \"CMA_stds\": opts[\"CMA_stds\"]})\n        elif config.sigma0:", ["R14.2"], "set_stds branch builds CMA-ES without the seeded options")
+M("C14-operator-own-rng", "C14", SEA, "        noise = np.random.normal(0, self.stds, size=new_population.genomes.shape)", "        noise = np.random.default_rng().normal(0, self.stds, size=new_population.genomes.shape)", ["R14.1"], "Gaussian mutation draws from a fresh unseeded generator")
+M("C14-seed-not-forwarded", "C14", TREE, "                    random_seed=self._random_seed,\n                    parent_deme=deme,", "                    random_seed=None,\n                    parent_deme=deme,", ["R14.4"], "sprouted demes get no seed (unseeded CMA / Sobol / LHS children)")
+M("C14-set-iteration", "C14", GEN, '''        candidates = {}
+        for level in tree.levels[:-1]:
+            for deme in level:
+                if deme.is_active:
+                    nbc = NearestBetterClustering(
+                        deme.current_population,
+                        self.distance_factor,
+                        self.truncation_factor,
+                    )
+                    deme_candidate_inds = nbc.cluster()
+                    candidates[deme] = DemeCandidates(
+                        individuals=deme_candidate_inds,
+                        features=DemeFeatures(nbc_mean_distance=np.mean(nbc.distances)),
+                    )
+        return candidates  # type: ignore[return-value]
+
+
+class NBCGeneratorWithLocalMethod''', '''        candidates = {}
+        for level in tree.levels[:-1]:
+            for deme in set(level):
+                if deme.is_active:
+                    nbc = NearestBetterClustering(
+                        deme.current_population,
+                        self.distance_factor,
+                        self.truncation_factor,
+                    )
+                    deme_candidate_inds = nbc.cluster()
+                    candidates[deme] = DemeCandidates(
+                        individuals=deme_candidate_inds,
+                        features=DemeFeatures(nbc_mean_distance=np.mean(nbc.distances)),
+                    )
+        return candidates  # type: ignore[return-value]
+
+
+class NBCGeneratorWithLocalMethod''', ["R14.6"], "parents visited in hash order (child ids depend on object addresses)")
+M("C14-module-rng", "C14", DEPY, "import numpy as np\nimport scipy\n", "import numpy as np\nimport scipy\n\n_RNG = np.random.default_rng()\n", ["R14.7"], "module-level generator created at import")
+M("C14-time-seed", "C14", TREE, "            np.random.seed(self._random_seed)\n", "            np.random.seed(self._random_seed)\n        else:\n            import time\n\n            np.random.seed(int(time.time()) % 2**32)\n", ["R14.5"], "placeholder")
+CORPUS.pop()
+M("C14-uuid-tiebreak", "C14", FIL, "candidates[deme].individuals = sorted(candidates[deme].individuals, reverse=True)[: self.limit]", "candidates[deme].individuals = sorted(sorted(candidates[deme].individuals, key=lambda ind: ind.uuid.int), reverse=True)[: self.limit]", ["R14.5"], "ties between candidates broken by uuid")
+M("C14-reseed-in-deme", "C14", CMA, "        self.generations = config.generations\n", "        self.generations = config.generations\n        np.random.seed()\n", ["R14.3"], "a deme reseeds numpy's global stream from OS entropy")
+T("C14-t-seed-local", "C14", TREE, '''            self._random_seed = config.options["random_seed"]
+            import random
+
+            import numpy as np
+
+            random.seed(self._random_seed)
+            np.random.seed(self._random_seed)''', '''            self._random_seed = config.options["random_seed"]
+            import random
+
+            import numpy as np
+
+            np.random.seed(self._random_seed)
+            random.seed(self._random_seed)''', "seeding order exchanged")
+T("C14-t-lhs-seed-local", "C14", LHS, "        self.sampler = LatinHypercube(d=len(config.bounds), seed=deme_init_args.random_seed)", "        sampler_seed = deme_init_args.random_seed\n        self.sampler = LatinHypercube(d=len(config.bounds), seed=sampler_seed)", "seed through a local")
